@@ -454,10 +454,8 @@ def tensor_getitem(it, t: STensor, idx, node=None):
                     return z3.If(bz > d, d, bz) if b >= 0 else z3.If(d + b < 0, z3.IntVal(0), d + b)
                 lo_z = clamp(lo)
                 hi_z = d if hi is None else clamp(hi)
-                nd = z3.simplify(z3.If(hi_z > lo_z, hi_z - lo_z, z3.IntVal(0)))
-                lo = z3.simplify(lo_z) if lo != 0 else 0
-                if z3.is_int_value(nd):
-                    nd = nd.as_long()
+                nd = simplify_dim(it.cx, z3.If(hi_z > lo_z, hi_z - lo_z, z3.IntVal(0)))
+                lo = simplify_dim(it.cx, lo_z) if lo != 0 else 0
             new_shape.append(nd)
             plan.append(("var", lo))
         else:
@@ -470,7 +468,7 @@ def tensor_getitem(it, t: STensor, idx, node=None):
             dz = dim_z3(d)
             if it.cx.branch(z3.Or(iz >= dz, iz < -dz), node):
                 ops.raise_(IndexError, "index out of range for tensor dimension", node=node)
-            plan.append(("fix", z3.If(iz >= 0, iz, iz + dz)))
+            plan.append(("fix", z3.simplify(z3.If(iz >= 0, iz, iz + dz))))
         src += 1
 
     def fn(out_idx):
@@ -521,7 +519,7 @@ def tensor_setitem(it, t: STensor, idx, v, node=None):
             dz = dim_z3(d)
             if it.cx.branch(z3.Or(iz >= dz, iz < -dz), node):
                 ops.raise_(IndexError, "index out of range for tensor dimension", node=node)
-            fixed.append(z3.If(iz >= 0, iz, iz + dz))
+            fixed.append(z3.simplify(z3.If(iz >= 0, iz, iz + dz)))
     vt = as_tensor(it, v)
     if vt is None:
         raise OutOfSubset("tensor store of a non-tensor value", node)
@@ -530,12 +528,34 @@ def tensor_setitem(it, t: STensor, idx, v, node=None):
     _, pa, pb = broadcast_shapes(it, sub_shape, vt.shape_, node)
 
     def newfn(i):
-        sel = z3.And(*[i[k] == f for k, f in enumerate(fixed) if f is not None]) if any(
-            f is not None for f in fixed) else z3.BoolVal(True)
+        conds = [i[k] == z3.simplify(f) for k, f in enumerate(fixed) if f is not None]
+        sel = (conds[0] if len(conds) == 1 else z3.And(*conds)) if conds else z3.BoolVal(True)
         sub = tuple(i[k] for k in free_dims)
         val = vt.elem_real(_op_idx(sub, vt.shape_, pb)) if t.dtype == "real" else vt.fn(_op_idx(sub, vt.shape_, pb))
         return z3.If(sel, val, old(i))
     t.fn = newfn
+
+
+def simplify_dim(cx, d):
+    """simplify a dimension expression under the current path condition (resolves If(...) of slicing)"""
+    if isinstance(d, int):
+        return d
+    d = z3.simplify(d)
+    if z3.is_int_value(d):
+        return d.as_long()
+    for _ in range(4):
+        if not (z3.is_app(d) and d.decl().kind() == z3.Z3_OP_ITE):
+            break
+        c = d.arg(0)
+        if cx.check(z3.Not(c)) == z3.unsat:
+            d = z3.simplify(d.arg(1))
+        elif cx.check(c) == z3.unsat:
+            d = z3.simplify(d.arg(2))
+        else:
+            break
+    if z3.is_int_value(d):
+        return d.as_long()
+    return d
 
 
 def transpose(t):
@@ -593,12 +613,44 @@ def _free_consts_in_order(e, skip):
     return out
 
 
-def sigma_term(cx, body_fn, n, sort=R):
-    """sum_{k=0}^{n-1} body(k), lambda-lifted: one uninterpreted symbol per body *template*, applied to
-    the free constants of the body and to n:  S_tmpl(c1..cm, n).  (Syntactically equal sums are equal
-    terms by congruence; extensionality / linearity instances come from pyvc.sigma.)"""
-    k = z3.Int(f"Σk!{next(_counter)}")
-    body = body_fn(k)
+def _abstract_index_args(body, k):
+    """replace every integer argument of an uninterpreted function that is free of k and is not a plain constant
+    (numerals, 1 + c, ...) by a placeholder constant, so that t[0], t[c + 1] and t[i] instantiate the *same* lifted
+    template: Sigma_b(c + 1, n) is Sigma_b(i, n) at i = c + 1"""
+    mapping = {}
+
+    def rec(e):
+        if not z3.is_app(e) or e.num_args() == 0:
+            return e
+        ch = [rec(c) for c in e.children()]
+        if e.decl().kind() == z3.Z3_OP_UNINTERPRETED:
+            ch2 = []
+            for c in ch:
+                plain = z3.is_app(c) and c.num_args() == 0 and c.decl().kind() == z3.Z3_OP_UNINTERPRETED
+                if z3.is_int(c) and not plain and not _depends(c, k):
+                    key = c.get_id()
+                    if key not in mapping:
+                        mapping[key] = (z3.Int(f"#idx{len(mapping)}_{key}"), c)
+                    ch2.append(mapping[key][0])
+                else:
+                    ch2.append(c)
+            ch = ch2
+        if all(a.eq(b) for a, b in zip(ch, e.children())):
+            return e
+        return e.decl()(*ch)
+    return rec(body), mapping
+
+
+def atomic_sigma(body, k, n, sort=R):
+    """the lambda-lifted symbol application for sum_{k<n} body (no algebraic processing)"""
+    body, argmap = _abstract_index_args(body, k)
+    app = _atomic_sigma(body, k, n, sort)
+    if argmap:
+        app = z3.substitute(app, *[(c, orig) for c, orig in argmap.values()])
+    return app
+
+
+def _atomic_sigma(body, k, n, sort=R):
     params = _free_consts_in_order(body, {str(k)})
     subst = [(k, z3.Var(0, I))] + [(c, z3.Var(j + 1, c.sort())) for j, c in enumerate(params)]
     tmpl = z3.substitute(body, *subst)
@@ -611,6 +663,171 @@ def sigma_term(cx, body_fn, n, sort=R):
         SIGMA_DEFS[name] = ent
         _SIGMA_BY_TEMPLATE[key] = ent
     return ent["fsym"](*(params + [dim_z3(n)]))
+
+
+SIGMA_EXPANSIONS = []     # log of (body, k, expansion-at-k) for the self-check of the normaliser
+
+
+def _depends(e, k):
+    from .core import const_names
+    return str(k) in const_names(e)
+
+
+def _rewrite_divisions(e, k):
+    """x / y with y free of k  ->  x * (1 / y)   (so that the polynomial normal form can pull 1/y out)"""
+    if not z3.is_app(e) or e.num_args() == 0:
+        return e
+    ch = [_rewrite_divisions(c, k) for c in e.children()]
+    if e.decl().kind() == z3.Z3_OP_DIV and not _depends(ch[1], k) and _depends(ch[0], k):
+        return ch[0] * (z3.RealVal(1) / ch[1])
+    if all(a.eq(b) for a, b in zip(ch, e.children())):
+        return e
+    return e.decl()(*ch)
+
+
+def _find_kronecker(e, k):
+    """a subterm If(k == c, a, b) (or c == k) with c free of k, outside quantifiers"""
+    stack = [e]
+    seen = set()
+    while stack:
+        x = stack.pop()
+        if x.get_id() in seen or not z3.is_app(x):
+            continue
+        seen.add(x.get_id())
+        if x.decl().kind() == z3.Z3_OP_ITE:
+            c = x.arg(0)
+            if z3.is_eq(c):
+                l, r = c.arg(0), c.arg(1)
+                if l.eq(k) and not _depends(r, k):
+                    return x, r
+                if r.eq(k) and not _depends(l, k):
+                    return x, l
+        stack.extend(x.children())
+    return None
+
+
+def _find_kfree_ite(e, k):
+    """a subterm If(cond, a, b) whose condition is free of k while a branch depends on k"""
+    stack = [e]
+    seen = set()
+    while stack:
+        x = stack.pop()
+        if x.get_id() in seen or not z3.is_app(x):
+            continue
+        seen.add(x.get_id())
+        if x.decl().kind() == z3.Z3_OP_ITE and not _depends(x.arg(0), k) and (_depends(x.arg(1), k) or _depends(x.arg(2), k)):
+            return x
+        stack.extend(x.children())
+    return None
+
+
+def _monomials(body, k):
+    """polynomial normal form of body: list of (coefficient free of k, product of the k-dependent factors or None)"""
+    b = z3.simplify(_rewrite_divisions(body, k), som=True, mul_to_power=False, hoist_mul=False)
+    terms = b.children() if (z3.is_app(b) and b.decl().kind() == z3.Z3_OP_ADD) else [b]
+    out = []
+    work = list(terms)
+    while work:
+        t = work.pop(0)
+        pre = []
+        # the simplifier folds x * (1/y) back into x / y: peel k-free denominators off again
+        while z3.is_app(t) and t.decl().kind() == z3.Z3_OP_DIV and not _depends(t.arg(1), k):
+            pre.append(z3.RealVal(1) / t.arg(1))
+            t = t.arg(0)
+        if pre and z3.is_app(t) and t.decl().kind() == z3.Z3_OP_ADD:
+            inv = pre[0]
+            for x in pre[1:]:
+                inv = inv * x
+            work = [c_ * inv for c_ in t.children()] + work
+            continue
+        factors = t.children() if (z3.is_app(t) and t.decl().kind() == z3.Z3_OP_MUL) else [t]
+        factors = list(factors) + pre
+        # flatten nested products / divisions among the factors
+        flat = []
+        stack_f = list(factors)
+        while stack_f:
+            fct = stack_f.pop(0)
+            if z3.is_app(fct) and fct.decl().kind() == z3.Z3_OP_MUL:
+                stack_f = list(fct.children()) + stack_f
+            elif z3.is_app(fct) and fct.decl().kind() == z3.Z3_OP_DIV and not _depends(fct.arg(1), k) and _depends(fct.arg(0), k):
+                stack_f = [fct.arg(0), z3.RealVal(1) / fct.arg(1)] + stack_f
+            else:
+                flat.append(fct)
+        coef, dep = [], []
+        for fct in flat:
+            if z3.is_app(fct) and fct.decl().kind() == z3.Z3_OP_UMINUS:
+                coef.append(z3.RealVal(-1))
+                fct = fct.arg(0)
+            (dep if _depends(fct, k) else coef).append(fct)
+        c = z3.RealVal(1)
+        for x in coef:
+            c = c * x
+        d = None
+        for x in dep:
+            d = x if d is None else d * x
+        out.append((z3.simplify(c), d))
+    return out
+
+
+def sum_expand(body, k, n, depth=0):
+    """sum_{k<n} body as a linear combination of *atomic* sums (sums of products of k-dependent factors):
+       - Kronecker deltas  If(k == c, a, b)  are eliminated: sum_k C[If(k==c,a,b)] = sum_k C[b] + (C[a]-C[b])(c)
+         for 0 <= c < n;
+       - the body is put in polynomial normal form and linearity of finite sums is applied:
+         sum_k (a f(k) + b g(k)) = a sum_k f(k) + b sum_k g(k),  sum_k c = n c.
+    Both rules are the trusted ones; the polynomial identity body = sum_m coef_m atom_m is re-checked by
+    pyvc.selftest (SIGMA_EXPANSIONS)."""
+    nz = dim_z3(n)
+    nz_s = z3.simplify(nz)
+    if z3.is_int_value(nz_s) and 0 <= nz_s.as_long() <= 6:
+        # a sum of concretely few terms is written out
+        tot = z3.RealVal(0)
+        for j in range(nz_s.as_long()):
+            tot = tot + z3.substitute(body, (k, z3.IntVal(j)))
+        return z3.simplify(tot)
+    kron = _find_kronecker(body, k) if depth < 6 else None
+    if kron is not None:
+        ite, c = kron
+        a, b = ite.arg(1), ite.arg(2)
+        body_b = z3.substitute(body, (ite, b))
+        body_a = z3.substitute(body, (ite, a))
+        at_c = z3.substitute(body_a - body_b, (k, c))
+        return sum_expand(body_b, k, n, depth + 1) + z3.If(z3.And(0 <= c, c < nz), at_c, z3.RealVal(0))
+    split = _find_kfree_ite(body, k) if depth < 8 else None
+    if split is not None:
+        # sum_k C[If(cond, a, b)] = If(cond, sum_k C[a], sum_k C[b])   when cond does not depend on k
+        ite = split
+        sa = sum_expand(z3.substitute(body, (ite, ite.arg(1))), k, n, depth + 1)
+        sb = sum_expand(z3.substitute(body, (ite, ite.arg(2))), k, n, depth + 1)
+        return z3.If(ite.arg(0), sa, sb)
+    monos = _monomials(body, k)
+    total = None
+    recon = None
+    for coef, dep in monos:
+        if dep is None:
+            term = coef * z3.ToReal(z3.If(nz >= 0, nz, z3.IntVal(0)))
+            rk = coef
+        else:
+            term = coef * atomic_sigma(dep, k, n)
+            rk = coef * dep
+        total = term if total is None else total + term
+        recon = rk if recon is None else recon + rk
+    if len(SIGMA_EXPANSIONS) < 400:
+        SIGMA_EXPANSIONS.append((body, k, recon))
+    return total if total is not None else z3.RealVal(0)
+
+
+def sigma_term(cx, body_fn, n, sort=R):
+    """sum_{k=0}^{n-1} body(k).  Real-valued sums are normalised into linear combinations of lambda-lifted atomic
+    sums (see sum_expand), so that code and specification meet in the same normal form and the solver only has
+    to do polynomial arithmetic over the atomic sums; integer (counting) sums stay atomic."""
+    k = z3.Int(f"Σk!{next(_counter)}")
+    body = body_fn(k)
+    if sort != R or num.is_fp(body):
+        if num.is_fp(body):
+            raise OutOfSubset("sum of IEEE values (no floating-point model of reductions)")
+        return atomic_sigma(body, k, n, sort)
+    return sum_expand(body, k, n)
 
 
 def sigma_body(name, args, k):
@@ -818,6 +1035,14 @@ def _shape_arg(args):
 def t_view(it, t, *shape):
     shape = _shape_arg(shape)
     shape = tuple(s.e if isinstance(s, SV) else s for s in shape)
+    if any(isinstance(d, int) and d == -1 for d in shape):
+        # infer the free dimension: only when the other requested dims are 1 and the tensor has one non-1 dim
+        big = [d for d in t.shape_ if not (isinstance(d, int) and d == 1)]
+        others = [d for d in shape if not (isinstance(d, int) and d in (-1, 1))]
+        if len(big) <= 1 and not others:
+            shape = tuple((big[0] if big else 1) if (isinstance(d, int) and d == -1) else d for d in shape)
+        else:
+            raise OutOfSubset(f"view/reshape {t.shape_} -> {shape} with an inferred dimension")
     # supported: adding / removing size-1 dimensions while keeping the order of the others
     src = [(k, d) for k, d in enumerate(t.shape_) if not (isinstance(d, int) and d == 1)]
     dst = [(k, d) for k, d in enumerate(shape) if not (isinstance(d, int) and d == 1)]
@@ -1033,29 +1258,58 @@ def m_stack(it, tensors, dim=0):
     return STensor((n,) + sh, fn, "real" if anyreal else ts[0].dtype)
 
 
-@model(torch.cat)
-def m_cat(it, tensors, dim=0):
+@model(torch.cat, torch.concat)
+def m_cat(it, tensors, dim=0, axis=None):
+    if axis is not None:
+        dim = axis
     ts = [as_tensor(it, t) for t in ops.native_iter(it, tensors)]
-    if dim != 0:
-        raise OutOfSubset("cat along dim != 0")
-    # offsets
+    nd = ts[0].ndim
+    dim = dim % nd
     offs = []
     acc = z3.IntVal(0)
     for t in ts:
         offs.append(acc)
-        acc = acc + dim_z3(t.shape_[0])
-    total = z3.simplify(acc)
-    total_d = total.as_long() if z3.is_int_value(total) else total
+        acc = acc + dim_z3(t.shape_[dim])
+    total_d = simplify_dim(it.cx, acc)
     anyreal = any(t.dtype == "real" for t in ts)
 
     def fn(idx):
         e = None
         for t, o in reversed(list(zip(ts, offs))):
-            sub = (idx[0] - o,) + tuple(idx[1:])
+            sub = tuple(idx[:dim]) + (idx[dim] - o,) + tuple(idx[dim + 1:])
             ek = t.elem_real(sub) if anyreal else t.fn(sub)
-            e = ek if e is None else z3.If(idx[0] < o + dim_z3(t.shape_[0]), ek, e)
+            e = ek if e is None else z3.If(idx[dim] < o + dim_z3(t.shape_[dim]), ek, e)
         return e
-    return STensor((total_d,) + ts[0].shape_[1:], fn, "real" if anyreal else ts[0].dtype)
+    shape = tuple(ts[0].shape_[:dim]) + (total_d,) + tuple(ts[0].shape_[dim + 1:])
+    return STensor(shape, fn, "real" if anyreal else ts[0].dtype)
+
+
+@model(torch.sign)
+def m_sign(it, t):
+    t = as_tensor(it, t)
+    return unary(t.as_num(), lambda e: z3.If(e > 0, z3.RealVal(1), z3.If(e < 0, z3.RealVal(-1), z3.RealVal(0))), "real")
+
+
+@model(torch.norm)
+def m_norm(it, t, p=2, dim=None, **kw):
+    t = as_tensor(it, t)
+    if p not in (2, "fro") or dim is not None:
+        raise OutOfSubset("torch.norm other than the Euclidean norm of the whole tensor")
+    sq = STensor(t.shape_, lambda idx: t.elem_real(idx) * t.elem_real(idx), "real")
+    ssum = reduce_sum(it, sq, None)
+    return STensor((), lambda idx: F_SQRT(ssum.fn(())), "real")
+
+
+@model(torch.eye)
+def m_eye(it, n, m=None, **kw):
+    d = _sv_shape((n,))[0]
+    d2 = _sv_shape((m,))[0] if m is not None else d
+    return STensor((d, d2), lambda idx: z3.If(idx[0] == idx[1], z3.RealVal(1), z3.RealVal(0)), "real")
+
+
+@model(torch.mean)
+def m_mean(it, t, dim=None, **kw):
+    return t_mean(it, as_tensor(it, t), dim, **kw)
 
 
 def _elementwise(name):
@@ -1067,7 +1321,7 @@ def _elementwise(name):
     return f
 
 
-for _n in ("exp", "log", "sqrt", "square", "sigmoid", "abs", "clamp", "sum", "mean", "any", "all", "squeeze", "unsqueeze"):
+for _n in ("exp", "log", "sqrt", "square", "sigmoid", "abs", "clamp", "sum", "any", "all", "squeeze", "unsqueeze"):
     model(getattr(torch, _n))(_elementwise(_n))
 for _n in ("view", "expand", "to", "cpu", "sum", "mean"):
     model(getattr(torch.Tensor, _n))(_elementwise(_n))
